@@ -21,7 +21,7 @@ CONSTANTS MaxArgs, MaxPats, Emit
 Cand == { <<"x.txt">>, <<"c">>, <<"a", "x.txt">>, <<"a", "y.go">>, <<"a", "b", "z.txt">>, <<"a", "c", "w.txt">> }
 ArgsC == { <<>>, <<"a">>, <<"x.txt">>, <<"a", "b">>, <<"c">>, <<"a", "c">> }         \* <<>> is "."
 (* the expressions, with what they match completely *)
-Pats == {"", "c", "a", ".*\\.go", ".*/RVS/a/.*", "(b|x\\.txt)"}
+Pats == {"", "c", "a", ".*\\.go", ".*/RVS/a/.*", "(b|x\\.txt)", ".*/c", ".*/a/x\\.txt"}    \* the last two: a FILE that sorts before siblings that stay
 EndsGo(n) == n = "y.go"
 NameMatch(pat, n) == CASE pat = "" -> FALSE
                        [] pat = "c" -> n = "c"
@@ -29,6 +29,8 @@ NameMatch(pat, n) == CASE pat = "" -> FALSE
                        [] pat = ".*\\.go" -> EndsGo(n)
                        [] pat = ".*/RVS/a/.*" -> FALSE                       \* a base name holds no separator
                        [] pat = "(b|x\\.txt)" -> n \in {"b", "x.txt"}
+                       [] pat = ".*/c" -> FALSE
+                       [] pat = ".*/a/x\\.txt" -> FALSE
 (* a file is matched by its absolute path /.../R/<path> *)
 PathMatch(pat, path) == CASE pat = "" -> FALSE
                           [] pat = "c" -> FALSE                           \* an absolute path is never just "c"
@@ -36,6 +38,8 @@ PathMatch(pat, path) == CASE pat = "" -> FALSE
                           [] pat = ".*\\.go" -> EndsGo(path[Len(path)])
                           [] pat = ".*/RVS/a/.*" -> Len(path) >= 2 /\ path[1] = "a"
                           [] pat = "(b|x\\.txt)" -> FALSE
+                          [] pat = ".*/c" -> path[Len(path)] = "c"
+                          [] pat = ".*/a/x\\.txt" -> path = <<"a", "x.txt">>
 IgnDir(ps, n)     == \E p \in ps : NameMatch(p, n)
 IgnFile(ps, path) == \E p \in ps : PathMatch(p, path)
 
